@@ -129,9 +129,9 @@ CHECKS = {
              "(both scoring variants) under multiplier >= 0, constant folding shows exactly 0 for a contiguous join; -inf is "
              "returned iff min(refLen+2refDist, qLen+2qDist) < 0; reference and query distance are current start - previous end on both strands; the DP "
              "re-initialises to a finite value, records predecessors only on strict improvement over a proper prefix, adds "
-             "the own score once, back-tracks until None and passes empty segments through via complementary predicates. Also: early returns of the chainer keep all empty segments; the scorer writes no state while scoring and never uses id(). Round 3: the join score is judged per return path (a finite score only after the overlap condition was refuted); the pre-order key increases with all four coordinates on both strands.",
+             "the own score once, back-tracks until None and passes empty segments through via complementary predicates. Also: early returns of the chainer keep all empty segments; the scorer writes no state while scoring and never uses id(). Round 3: the join score is judged per return path (a finite score only after the overlap condition was refuted); the pre-order key increases with all four coordinates on both strands. The DP step is judged on the path summary of one outer iteration (0, 1, 2 predecessors explored; the values left in cumulated[i] / previous[i] compared with the recurrence on the same test outcomes), so accumulators may be locals.",
         note="Assumes segmentJoinMultiplier >= 0 (not validated by args.py: observation O6). Optimality over all subsets is declined.",
-        tech="static analysis: sign abstract interpretation (R-SIGN) + term normal forms + structural DP bookkeeping rules",
+        tech="static analysis: sign abstract interpretation (R-SIGN) + term normal forms + path-summary rule for the DP step (explorer over the loop body, heap values compared with the recurrence)",
         ref="DESIGN.md section 4 C14"),
     "C15": dict(
         text="Static provenance rules: every value returned by any resolveConflict implementation is the left/right segment or "
